@@ -60,6 +60,13 @@ def cases(tier, seed):
         out.append({"spec": spec})
     # (the selection metric only matters with >= 2 coordinates of different fitted length scale; several refits needed)
     out += C.option_variation_slice("C15", tier, seed, gen_kw=dict(Dchoices=(2, 3), lands=("quad", "rosen", "bowl4"), budgets=(90, 120)))
+    # a user-supplied exploration schedule: option search_acq_fcn = ('acq_LCB', schedule(t, number of variables))
+    for j_ in range(6 if tier == "quick" else 60):
+        rng = gen.rng_for(seed, "C15", 880000 + j_)
+        spec = gen.make_spec(rng, D=int(rng.choice([2, 3, 4])), geom=str(rng.choice(["lin", "log", "unb"])), x0mode="in", land=str(rng.choice(["quad", "rosen", "l1"])),
+                             mode=str(rng.choice(["det", "det", "he"])), max_fun_evals=int(rng.choice([60, 90])))
+        spec["acq_schedule"] = [float(rng.choice([0.5, 1.0, 2.0])), float(rng.choice([0.25, 0.5]))]
+        out.append({"spec": spec})
     return out
 
 
